@@ -359,6 +359,22 @@ fn replay(args: &[String]) -> i32 {
                     }
                 }
             }
+            "tab" => {
+                // an entry of the specification's example table (expression text, expected string)
+                if let Some((doc, _, _)) = docs.get(&case["doc"].as_i64().unwrap_or(0)) {
+                    cases += 1;
+                    evals += 1;
+                    nontrivial += 1;
+                    let obs = eval_fresh(doc, &cps(&case["expr"]), &json!([]));
+                    if obs["t"] == "str" && obs["v"] == case["exp"] {
+                        fast_ok += 1;
+                    }
+                    let ev = json!({"k": "tab", "expr": case["expr"], "obs": obs});
+                    writeln!(w, "{}", ev).unwrap();
+                    traced += 1;
+                    *fams.entry("tab".to_string()).or_insert(0) += 1;
+                }
+            }
             "xp" => {
                 cases += 1;
                 let d = case["doc"].as_i64().unwrap_or(0);
